@@ -4,7 +4,10 @@
    check, min/max := +-inf when n = 0, n += 1, delta from the OLD m1, m1, m2
    with the NEW m1, m3 and m4 with the OLD m2 / m3, sum, min, max) with
    Python's operator precedence and association, so that the binary64 instance
-   reproduces CPython bit for bit.  Every getter returns
+   reproduces CPython bit for bit.  (After the two checks the code takes
+   [value = float(value)]: the identity on [ONum]'s universe -- floats, ints and
+   bools exactly representable as float; a Quantity observation enters the
+   correspondence runs as [ONum (float q)], its si-value.)  Every getter returns
    [Val x | NaNres | Raise k].
 
    The getters model the REPAIRED code (proposed_fixes/C09-*.patch):
